@@ -72,11 +72,17 @@ func New[K ~string, V any](expTime, cleanupTime time.Duration) *Cache[K, V] {
 // Set inserts a new item into the cache, but first verifies if an item with the same key already exists in the cache.
 // In case an item with the specified key already exists in the cache it will return an error.
 func (c *Cache[K, V]) Set(key K, val V, d time.Duration) error {
-	item, err := c.Get(key)
-	if item != nil && err == nil {
-		return fmt.Errorf("item with key '%v' already exists. Use the Update method", key)
+	// The liveness check and the insertion have to happen under the same lock,
+	// otherwise two concurrent callers could both pass the check.
+	c.mu.Lock()
+	defer c.mu.Unlock()
+
+	if item, ok := c.items[key]; ok {
+		if item.expiration <= 0 || time.Now().UnixNano() <= item.expiration {
+			return fmt.Errorf("item with key '%v' already exists. Use the Update method", key)
+		}
 	}
-	return c.add(key, val, d)
+	return c.store(key, val, d)
 }
 
 // SetDefault adds a new item into the cache with the default expiration time.
@@ -88,6 +94,14 @@ func (c *Cache[K, V]) SetDefault(key K, val V) error {
 // If the duration is 0 (or DefaultExpiration) the cache default expiration time is used.
 // If the duration is < 0 (or NoExpiration), the item never expires and should be removed manually.
 func (c *Cache[K, V]) add(key K, val V, d time.Duration) error {
+	c.mu.Lock()
+	defer c.mu.Unlock()
+
+	return c.store(key, val, d)
+}
+
+// store has a local scope only, it should be called with the lock held.
+func (c *Cache[K, V]) store(key K, val V, d time.Duration) error {
 	var exp int64
 
 	if d == DefaultExpiration {
@@ -99,11 +113,6 @@ func (c *Cache[K, V]) add(key K, val V, d time.Duration) error {
 		exp = int64(NoExpiration)
 	}
 
-	item, err := c.Get(key)
-	if item != nil && err != nil {
-		return fmt.Errorf("item with key '%v' already exists", key)
-	}
-
 	switch any(val).(type) {
 	case string:
 		if len(any(val).(string)) == 0 {
@@ -111,12 +120,10 @@ func (c *Cache[K, V]) add(key K, val V, d time.Duration) error {
 		}
 	}
 
-	c.mu.Lock()
 	c.items[key] = &Item[V]{
 		object:     val,
 		expiration: exp,
 	}
-	c.mu.Unlock()
 
 	return nil
 }
